@@ -1239,7 +1239,9 @@ class GateSplit(CalleeMixin, More):
             new = (lo, hi)
         pre_sound = And(forall_sites(Implies(And(0 <= K, K < lo), sel(p["isL"], K))),
                         forall_sites(Implies(And(hi < K, K < p["L"]), sel(p["isR"], K))))
-        d["derived-record-rule"] = Implies(pre_sound, Sound(cx, new, r))
+        if not cx.ghost.get(("applying", self.target)):
+            # (a consequence of the clauses above: proved for the body, not needed again as an assumption of callers)
+            d["derived-record-rule"] = Implies(pre_sound, Sound(cx, new, r))
         return d
 
 
